@@ -42,6 +42,7 @@ def setup(rep, tier):
     rep.minimum('R05.5', 3)
     rep.minimum('R05.6', 1)
     rep.minimum('R05.7', 2)
+    rep.minimum('R05.8', 1)
 
 
 def local_key(f, name):
@@ -455,7 +456,20 @@ def r05_6(rep, prog):
                 return
             for m in range(1, 1277):
                 cases += 1
-                rate = decide.ev3(e_rate, {kFs_u: Fs, ('param', pf): fs_, ('param', pm): m})
+                vr = {kFs_u: Fs, ('param', pf): fs_, ('param', pm): m}
+
+                def resu(x, vr=vr, depth=[0]):
+                    # single-definition locals of user_bitrate_to_bitrate (a cached frame rate, ...) are evaluated through their definition
+                    if sx.kind(x) == 'local' and depth[0] < 6:
+                        ds = decide.find_assign(u, x[1])
+                        if len(ds) == 1:
+                            depth[0] += 1
+                            try:
+                                return decide.ev3(ds[0][1], vr, resu)
+                            finally:
+                                depth[0] -= 1
+                    return None
+                rate = decide.ev3(e_rate, vr, resu)
                 if rate is None:
                     rep.unresolved('R05.6', 'cannot evaluate the BITRATE_MAX rate expression `%s`' % sx.show(e_rate))
                     return
@@ -685,7 +699,63 @@ def r05_7(rep, prog):
     return n
 
 
+# ------------------------------------------------------------------ R05.8
+def r05_8(rep, prog):
+    """the CELT layer is one object shared by the hybrid and the MDCT-only mode.  Whatever rate-control request the
+    hybrid arm of the frame encoder issues on it with its own value (OPUS_SET_VBR_CONSTRAINT(0), OPUS_SET_BITRATE(...))
+    the MDCT-only arm must issue too, otherwise the value left by a hybrid frame governs later MDCT-only frames
+    (unconstrained VBR after any hybrid frame: the constrained-VBR rate bound no longer holds)."""
+    f = prog.fn('opus_encode_frame_native')
+    cf = cfgm.CFG(f)
+    rep.functions.add(f.name)
+    # the branch on  st->mode == MODE_HYBRID  whose both arms configure the CELT encoder
+    n = 0
+    for b in sorted(cf.blocks):
+        c = cf.cond(b)
+        if c is None:
+            continue
+        at = guards.atoms(c, True)
+        if not (len(at) == 1 and at[0][0] == '==' and isinstance(at[0][1], tuple) and at[0][1][0] == 'field' and at[0][1][2] == 'mode' and at[0][2] == ('int', 1001)):
+            continue
+        es = dict((pol, s2) for s2, pol in cf.edges(b))
+        if True not in es or False not in es:
+            continue
+        join = cf.ipdom.get(b) if hasattr(cf, 'ipdom') else None
+
+        def reqs(start, other):
+            seen, work, out = set(), [start], {}
+            stop = cf.reachable_from(other) | {other}
+            while work:
+                x = work.pop()
+                if x in seen or (x in stop and x != start):
+                    continue
+                seen.add(x)
+                for st_ in cf.blocks[x]['stmts']:
+                    for y in sx.walk(st_):
+                        if sx.kind(y) == 'call' and sx.callee_name(y) == 'opus_custom_encoder_ctl' or (sx.kind(y) == 'call' and sx.callee_name(y) == 'celt_encoder_ctl'):
+                            r = y[2][1] if len(y[2]) > 1 else None
+                            m = sx.macros(r) if r is not None else []
+                            nm = (m[0] if m else None) or str(sx.int_val(r))
+                            out[nm] = sx.line(y)
+                work += cf.succ[x]
+            return out
+        hy, ce = reqs(es[True], es[False]), reqs(es[False], es[True])
+        if not hy or not ce:
+            continue
+        n += 1
+        missing = sorted(set(hy) - set(ce))
+        inst = '%s:opus_encode_frame_native re-issues in the MDCT-only arm every CELT request the hybrid arm sets' % prog.config
+        where = '%s:%s' % (f.file, cf.blocks[b]['term'].get('l'))
+        if missing:
+            rep.violated('R05.8', inst, where, 'the hybrid arm issues %s (line %s) on the shared CELT encoder, the MDCT-only arm does not: the hybrid value stays in force for later MDCT-only frames' % (
+                missing, hy[missing[0]]), key='celt-config:%s' % missing[0])
+        else:
+            rep.holds('R05.8', inst, where, 'hybrid arm %s, MDCT-only arm %s' % (sorted(hy), sorted(ce)))
+    return n
+
+
 def check(rep, prog, tier):
+    r05_8(rep, prog)
     r05_7(rep, prog)
     r05_5(rep, prog)
     r05_6(rep, prog)
